@@ -25,7 +25,7 @@ func genLayoutTree(c *core.Ctx, cfgIdx int) layoutCase {
 	cfg := treeConfigs[cfgIdx%len(treeConfigs)]
 	t := newTree(cfg.dir, cfg.ext)
 	g := newStmtGen(r, stmtGenOpts{MaxDepth: 1 + r.Intn(3), IfHeavy: true, LoopHeavy: r.Intn(2) == 0})
-	layoutName := []string{"layouts/main", "layouts/base.v2", "shared/frame", "layouts/mail.min"}[r.Intn(4)]
+	layoutName := []string{"layouts/main", "layouts/base.v2", "shared/frame", "layouts/mail.min", "layouts/odd" + cfg.ext}[r.Intn(5)]
 	reserves := fmtNames("r", 1+r.Intn(3))
 	body := g.program(2 + r.Intn(4))
 	body = insertReserves(r, body, reserves)
